@@ -88,7 +88,32 @@ def run(tier, replay=None):
             n = r.randint(25, 55); E = gnp(r, n, r.uniform(2.2, 4.0) / n)
             WE, _ = weights(r, [tuple(e) for e in E], "wide")
             layout_bases.append((n, WE))
+    # renumbering sweep: small graphs made of isometric even cycles (every antipodal pair has two tied shortest paths)
+    # under MANY vertex numberings each — "unchanged by renumbering vertices" is a statement about every permutation, and
+    # a tie-break that is only consistent for some numberings shows on few of them
+    renum_bases = []
+    if not replay:
+        shapes = []
+        for L in (6, 8, 10):
+            shapes.append(cycle(L))
+            shapes.append(cycle(L) + [(0, L), (L, L + 1), (L + 1, L + 2), (L + 2, 3)])
+            shapes.append(cycle(L) + [(0, L), (L, L + 1)])
+        shapes.append(grid(2, 4)); shapes.append(hypercube(3)); shapes.append(bipartite(2, 3))
+        for E in shapes:
+            WE = [(u, v, 1) for (u, v) in E]
+            if r.random() < .3: WE = [(u, v, 2) for (u, v) in E]
+            renum_bases.append((nverts(E), WE))
     jobs, meta = {}, {}
+    for ri, (n, WE) in enumerate(renum_bases):
+        bi = len(bases) + len(layout_bases) + ri
+        for v in ("signed", "iso", "fvs"):
+            jobs["b%d-%s" % (bi, v)] = ((n, WE, 0, "base"), v); meta["b%d-%s" % (bi, v)] = (bi, "base", v)
+        for pj in range(12 if tier == "quick" else 60):
+            perm = list(range(n)); r.shuffle(perm)
+            E2 = [(perm[u], perm[v], w) if r.random() < .5 else (perm[v], perm[u], w) for (u, v, w) in WE]; r.shuffle(E2)
+            for v in ("iso", "fvs") if pj % 2 == 0 else ("iso_tbb",):
+                k = "b%d-p%d-%s" % (bi, pj, v)
+                jobs[k] = ((n, E2, 0, "renumber-sweep"), v); meta[k] = (bi, "renumber-sweep", v, lambda mu: mu)
     for li, (n, WE) in enumerate(layout_bases):
         bi = len(bases) + li
         jobs["b%d-fvs" % bi] = ((n, WE, 0, "base"), "fvs"); meta["b%d-fvs" % bi] = (bi, "base", "fvs")
@@ -96,8 +121,8 @@ def run(tier, replay=None):
         for hj in range(4):
             k = "b%d-h%d" % (bi, hj)
             jobs[k] = ((n, WE, 0, "heap-layout"), "signed"); meta[k] = (bi, "heap-layout", "signed", lambda mu: mu)
-    bases = bases + layout_bases
-    for bi, (n, WE) in enumerate(bases[:len(bases) - len(layout_bases)]):
+    bases = bases + layout_bases + renum_bases
+    for bi, (n, WE) in enumerate(bases[:len(bases) - len(layout_bases) - len(renum_bases)]):
         big = n > 40
         vs = VARIANTS if not big else ["signed", "fvs", "iso_tbb", "signed_tbb"]
         for v in vs:
